@@ -1506,13 +1506,25 @@ class ArrowSerializableDataclass:
                 )
             return inner_type(**nested_kwargs)
 
-        # Handle frozenset reconstruction
+        # Handle frozenset reconstruction.  Elements are converted like list
+        # elements: Arrow hands back names for enums, dicts for nested
+        # dataclasses and lists for nested sets/maps.
         if get_origin(inner_type) is frozenset and isinstance(value, list):
-            return frozenset(value)
+            set_args = get_args(inner_type)
+            if not set_args:
+                return frozenset(value)
+            return frozenset(cls._convert_value_for_deserialization(v, set_args[0], ipc_validation) for v in value)
 
-        # Handle dict reconstruction from list of tuples
+        # Handle dict reconstruction from list of tuples (keys and values
+        # converted recursively, mirroring _convert_value_for_serialization).
         if get_origin(inner_type) is dict and isinstance(value, list):
-            return dict(cast("list[tuple[object, object]]", value))
+            pairs = cast("list[tuple[object, object]]", value)
+            map_args = get_args(inner_type)
+            if len(map_args) != 2:
+                return dict(pairs)
+            key_type, item_type = map_args
+            convert = cls._convert_value_for_deserialization
+            return {convert(k, key_type, ipc_validation): convert(v, item_type, ipc_validation) for k, v in pairs}
 
         # Handle list with element type conversion
         origin = get_origin(inner_type)
